@@ -6,3 +6,4 @@ pub assume_specification [u64::max_value] () -> (r: u64)
 // std::cmp::max(a, b): "Returns the second argument if the comparison determines them to be equal."
 pub assume_specification<T: core::cmp::Ord> [core::cmp::max] (a: T, b: T) -> (r: T)
     ensures <T as vstd::std_specs::cmp::OrdSpec>::obeys_cmp_spec() ==> r == (if a.cmp_spec(&b) == core::cmp::Ordering::Greater { a } else { b });
+
